@@ -51,7 +51,7 @@ func TestC09_fold_Coop(t *testing.T) {
 			sc := newSched(c.Yields)
 			// the limiter's logger is a public extension point: with debug output enabled, every log call the limiter
 			// makes on its completion path is a schedule point too (the pinned tree makes none)
-			lim, err := limiter.NewDefaultLimiter(rec, int64(time.Hour), int64(time.Hour), 1, c.WinSize, strategy.NewPreciseStrategy(m+10), debugSchedLogger{schedLogger{sc}}, nil)
+			lim, err := limiter.NewDefaultLimiter(rec, int64(time.Hour), int64(time.Hour), 1, c.WinSize, strategy.NewPreciseStrategy(m+10), debugSchedLogger{schedLogger{s: sc}}, nil)
 			if err != nil {
 				return kit.Outcome{Harness: err.Error()}
 			}
